@@ -72,6 +72,10 @@ class Run:
             it = fr.f_locals.get(name)
             if it is not None and id(it) in self.item_gid:
                 return self.item_gid[id(it)]
+        # the local was renamed: fall back to the only flow item among the frame's locals, if there is exactly one
+        cand = {self.item_gid[id(v)] for v in fr.f_locals.values() if id(v) in self.item_gid}
+        if len(cand) == 1:
+            return cand.pop()
         return 0
 
 
